@@ -68,6 +68,8 @@ def st_filter(draw, store, limit=None, allow_absent=True, max_conds=3):
         conds = ["kinds", "tag"] + [c for c in conds if c in ("since", "until")]       # chained multi-index
     elif shape == 2:
         conds = ["authors", "tag", "tag2"][: draw(st.integers(2, 3))]
+    elif shape == 3:
+        conds = ["tag", "tag2"]   # two tag names and nothing else: one tag-index scan over the union, AND by the matcher
 
     def pick(present, absent, maxn=3):
         vals = []
@@ -146,3 +148,38 @@ def st_store_and_filters(draw, max_filters=3, max_events=20, limit=None, history
     nf = draw(E.weighted((6, st.just(1)), (2, st.just(2)), (1, st.integers(3, max(3, max_filters)))))
     filters = [draw(st_filter(store, limit=limit)) for _ in range(nf)]
     return {"store": store, "filters": filters}
+
+
+@st.composite
+def st_conjunction(draw):
+    """store + filter for a conjunction of two conditions where the events satisfying BOTH are older than several
+    'distractors' that satisfy only ONE of them (what an index scan sees first is not what the filter wants)"""
+    conds = draw(st.lists(st.sampled_from(["#t", "#p", "kinds", "authors"]), min_size=2, max_size=2, unique=True))
+    want = {"#t": "a", "#p": PUBS[2], "kinds": 1, "authors": PUBS[3]}
+    other = {"#t": "b", "#p": PUBS[4], "kinds": 7, "authors": PUBS[0]}
+    n_match = draw(st.integers(1, 3))
+    n_dis = draw(st.integers(1, 5))
+    ids = draw(E.st_id_pool(n_match + 2 * n_dis))
+
+    def build(i, sat, ts):
+        vals = {c: (want[c] if c in sat else other[c]) for c in ("#t", "#p", "kinds", "authors")}
+        tags = [["t", vals["#t"]], ["p", vals["#p"]]]
+        if draw(st.booleans()):
+            tags.reverse()
+        return E.free(ids[i], vals["authors"], vals["kinds"], ts, tags)
+
+    store = []
+    k = 0
+    for j in range(n_match):
+        store.append(build(k, set(conds) | {"#t", "#p", "kinds", "authors"} if draw(st.booleans()) else set(conds), E.T0 - 10 + j))
+        k += 1
+    for j in range(n_dis):
+        store.append(build(k, {conds[0]}, E.T0 + j))
+        k += 1
+        store.append(build(k, {conds[1]}, E.T0 + j))
+        k += 1
+    f = {}
+    for c in conds:
+        f[c] = [want[c]]
+    order = draw(st.permutations(store))
+    return {"store": list(order), "filters": [f]}
